@@ -7,14 +7,15 @@ View bounds of one replica (task S14), through every handler, and their lift to 
 `VB s`: the committed block is OLDER than the current view (`s.committed.view < s.view`), the replica has
 not voted or timed out beyond its view (`s.lastVoted ≤ s.view`), genesis is stored.
 
-Why it holds: the view only grows (`advanceView`: `view + 1`); `committed` is moved by `tryCommit c b` only,
+Why it holds: the view only grows (`advanceView`: to the certified view + 1, at least `view + 1`); `committed` is moved by `tryCommit c b` only,
 to the tail `b3` of a chain below the block `p` stored under `b.qc.hash` (`CommitChain`, `tryCommit_tl`);
 `tryCommit c b` runs only after `voterVerify … b …` answered `.ok` — so `b.qc` verifies (the stored block
 `p` has the certificate's view) and `b.qc.view < b.view` — and `b.view ≤ view` (`onPropose` buffers
 proposals of later views, `createAndPropose` proposes for the current view).
 
-The high QC and the high TC are NOT bounded by the view (a replica that lags behind learns a certificate of a
-later view and moves on by ONE view): see Props/C05Pre.lean for the kernel-evaluated witnesses.
+The high QC and the high TC: with the old `advanceView` (`view + 1`) they were NOT bounded by the view (a replica
+that lagged behind learnt a certificate of a later view and moved on by ONE view); since `EnterViewAfter` (task
+S15) the replica enters the view after the certificate — see Props/C05Pre.lean for the kernel-evaluated run.
 -/
 open Std.Do
 set_option mvcgen.warning false
